@@ -121,8 +121,9 @@ Proof.
            exfalso; vb; apply app_eq_nil in D; destruct D as [_ D]; apply map_eq_nil in D; contradiction
          | EUpdate _ _ =>
            intros _ y Hy; match goal with Q : eqsetN _ _ = true |- _ => rewrite eqsetN_spec in Q; apply Q; exact Hy end
-         | ECheckComplete _ _ =>
-           intros D; repeat match goal with E : ?a = _ |- _ => lazymatch a with ids _ => rewrite E in * | r_placed _ => rewrite E in * end end; apply O; exact D
+         | _ =>
+           intros D; repeat match goal with E : ?a = _ |- _ => lazymatch a with ids _ => rewrite E in * | r_placed _ => rewrite E in * | r_out _ => rewrite E in * end end;
+           apply O; destruct D as [D|[D|D]]; try discriminate; try congruence; auto
          end
        end.
 Qed.
@@ -137,7 +138,7 @@ Proof.
          | ESqueue _ _ =>
            intros Ho y Hy; apply filter_In; split; [apply O; auto|];
            match goal with Q : eqsetN _ _ = true |- _ => rewrite eqsetN_spec in Q; apply memN_In; apply Q; exact Hy end
-         | EMarkerTouch _ => intros _; unfold believed in F; rw_holder; apply F; assumption
+         | EMarkerTouch _ => intros _; unfold believed in F; rw_holder; repeat match goal with E : r_out _ = _ |- _ => rewrite E in * end; apply F; assumption
          | ESbatch _ _ _ _ _ _ =>
            intros _; rewrite act_ids_app; apply incl_app; [apply incl_appl; apply O; assumption|apply incl_appr; cbn; apply incl_refl]
          | _ =>
